@@ -100,6 +100,7 @@ type CallRecord struct {
 	ExpectStatus    int           `json:"expect_status"`
 	ExpectErrClass  string        `json:"expect_err_class,omitempty"`
 	MayRefuse       bool          `json:"may_refuse,omitempty"`
+	HasBody         bool          `json:"has_body,omitempty"`
 }
 
 type Result struct {
@@ -260,7 +261,7 @@ func (e *Engine) Bin(world string, race bool) string {
 
 // ---- sampling
 
-var ops = []string{"echoJSON", "echoJSON", "echoJSONStream", "echoForm", "echoMultipart", "echoStream", "variants", "secure", "secure2", "echoWild", "echoParams", "echoParams", "echoShapes", "echoShapes", "echoSeg"}
+var ops = []string{"echoJSON", "echoJSON", "echoJSONStream", "echoForm", "echoMultipart", "echoStream", "variants", "secure", "secure2", "echoWild", "echoParams", "echoParams", "echoShapes", "echoShapes", "echoSeg", "echoOpt"}
 var invalids = []string{"pattern", "regexp2", "multipleOf", "maxLength", "enum", "tagpattern"}
 var readers = []string{"bytes", "bytes", "onebyte", "dataerr", "half"}
 var creds = []string{"header", "basic+query", "bearer", "header", "none", "wrong"}
@@ -287,7 +288,7 @@ var worldRoutes = []struct {
 	{"echoJSON", "POST", []string{"echo", "json", "*"}}, {"echoJSONStream", "POST", []string{"echo", "jsonstream"}}, {"echoForm", "POST", []string{"echo", "form"}},
 	{"echoMultipart", "POST", []string{"echo", "multipart"}}, {"echoStream", "POST", []string{"echo", "stream"}}, {"echoWild", "POST", []string{"echo", "wild"}},
 	{"echoParams", "GET", []string{"echo", "params", "*", "*", "*"}}, {"echoShapes", "POST", []string{"echo", "shapes", "*"}}, {"variants", "POST", []string{"variants"}},
-	{"secure", "GET", []string{"secure"}}, {"secure2", "GET", []string{"secure2"}}, {"echoSeg", "GET", []string{"echo", "seg", "~^.+;.+$|v;v", "~^v\\(.+\\)$|v(v)"}},
+	{"secure", "GET", []string{"secure"}}, {"secure2", "GET", []string{"secure2"}}, {"echoOpt", "POST", []string{"echo", "opt"}}, {"echoSeg", "GET", []string{"echo", "seg", "~^.+;.+$|v;v", "~^v\\(.+\\)$|v(v)"}},
 }
 
 // worldRoute says which operation a raw (escaped) path designates: segments are what lies between literal
@@ -349,9 +350,17 @@ func worldPathAfter(op string, seg int, val string) (string, bool) {
 }
 
 // sampleMangle draws a rewrite of one piece of the request head. targets: e.g. "query:n32", "header#1", "path:2".
+// authTexts: Authorization values in which the scheme name is not followed by exactly the separator and a token
+// (the token itself is one the world's security handler would accept), or which are no credentials at all.
+var authTexts = []string{"Bearer=good-z", "Bearer\tgood-z", "BearerXgood-z", "bearer_good-z", "Bearergood-z", "Bearer", "Bearer ", "Basic", "Basic !!!", "Basic Z29vZA",
+	"Basic=Z29vZC11OnA=", "BasicXZ29vZC11OnA=", "Token good-z", "good-z", "Bearer:good-z", "Bearer,good-z"}
+
 func sampleMangle(rng *rand.Rand, targets []string) *Fault {
 	t := targets[rng.Intn(len(targets))]
 	text := hostileTexts[rng.Intn(len(hostileTexts))]
+	if t == "header:Authorization" {
+		text = authTexts[rng.Intn(len(authTexts))]
+	}
 	f := &Fault{Kind: "mangle", Arg: t}
 	switch {
 	case strings.HasPrefix(t, "query"):
@@ -478,7 +487,8 @@ var worldParamTypes = map[string]map[string]string{
 	"echoJSON":   {"path:2": "int64", "header:X-Req": "", "query:q": "", "cookie:sess": ""},
 	"echoStream": {"header:X-Len": "int"},
 	"echoParams": {"path:3": "", "query:csv": "", "header:X-List": "", "cookie:ck": ""},
-	"secure":     {"query:who": ""},
+	"secure":     {"query:who": "", "header:Authorization": "authz", "header:X-Api-Key": "", "query:api_key": ""},
+	"secure2":    {"header:Authorization": "authz", "header:X-Api-Key": ""},
 }
 
 // Mode selects the fault distribution.
@@ -905,6 +915,12 @@ func oracleC15(r *CallRecord) []problem {
 					}
 				}
 			}
+		case k == "mangle" && worldParamTypes[r.Call.Op][r.Call.Fault.Arg] == "authz":
+			// whatever the Authorization header is rewritten to from authTexts, it is not a credential of the form
+			// "<scheme> <token>" that the security handler accepts: no alternative is satisfied any more
+			if s.HandlerCalls != 0 || s.Status != 401 {
+				add("a malformed Authorization header satisfies no security requirement: 401, no handler call", fmt.Sprintf("delivery %d: Authorization rewritten to %q: status %d, handler calls %d, handler saw %s", i, r.Call.Fault.Val, s.Status, s.HandlerCalls, clip(s.ServerSaw, 160)))
+			}
 		case k == "mangle":
 			if typ := worldParamTypes[r.Call.Op][r.Call.Fault.Arg]; typ != "" {
 				if text, ok := mangledText(r.Call.Fault); ok && certainlyInvalid(typ, text) {
@@ -941,7 +957,7 @@ func oracleC15(r *CallRecord) []problem {
 			if s.HandlerCalls != 0 || (s.Status != 400 && s.Status != 401) {
 				add("a lost required parameter is answered 400", fmt.Sprintf("delivery %d: status %d, handler calls %d", i, s.Status, s.HandlerCalls))
 			}
-		case k == "ctype" && r.Call.Op != "secure" && r.Call.Op != "secure2" && r.Call.Op != "echoParams" && r.Call.Op != "echoSeg" && (r.Call.Fault.Arg == "text/weird" || r.Call.Fault.Arg == ";;;" || r.Call.Fault.Arg == "" || !strings.Contains(r.Call.Fault.Arg, "/")):
+		case k == "ctype" && r.Call.Op != "secure" && r.Call.Op != "secure2" && r.Call.Op != "echoParams" && r.Call.Op != "echoSeg" && !(r.Call.Op == "echoOpt" && !r.HasBody) && (r.Call.Fault.Arg == "text/weird" || r.Call.Fault.Arg == ";;;" || r.Call.Fault.Arg == "" || !strings.Contains(r.Call.Fault.Arg, "/")):
 			if s.HandlerCalls != 0 || (s.Status != 415 && s.Status != 400) {
 				add("a wrong or missing content type is answered 415/400", fmt.Sprintf("delivery %d: status %d, handler calls %d", i, s.Status, s.HandlerCalls))
 			}
